@@ -19,6 +19,7 @@ static char msg_txt[2];
 char*       getmessage(int Num) { (void)Num; return msg_txt; }
 char const* GetFileName(int Num) { (void)Num; return msg_txt; }
 Integer     GetFileNum(char* Name) { (void)Name; return 1; }
+#ifndef VERIF_LINK_STRUTIL /* groups that link the real strutil.c use its definitions */
 size_t      strmaxcpy(char* dest, char const* src, size_t Max) { /* faithful: copies up to Max-1 characters */
     size_t n = 0;
     if (!Max) return 0;
@@ -33,6 +34,7 @@ size_t      strmaxcat(char* Dest, char const* Src, size_t MaxLen) { /* faithful 
     Dest[d] = 0;
     return n;
 }
+#endif
 #include "strcomp.h"
 void StrCompRefRight(tStrComp* pDest, tStrComp const* pSrc, size_t StartOffs) {
     pDest->str.p_str = pSrc->str.p_str + StartOffs; pDest->str.capacity = pSrc->str.capacity - StartOffs; pDest->str.dynamic = 0;
@@ -211,6 +213,47 @@ void h_LookupSymbol(void) {
     } else {
         VPOST(g_err_cnt == ec + 1 && g_err_last == ErrNum_SymbolUndef && Repass == rp0, "C01: an unknown symbol in a later pass is an error (never silently 0)");
         VREACH("undefined");
+    }
+}
+
+/* IdentifySection: the section qualifier of name[section] references and of PUBLIC/GLOBAL name:section.
+ * "" is global, PARENT0 the current section, PARENT/PARENT1 its parent, PARENTn the n-th ancestor (an error beyond
+ * global), a plain name the enclosing section of that name.  ExpandStrSymbol ({..} expansion) is replaced by a copy
+ * (goto-instrument --replace-calls); the section-name list and the section stack are real data. */
+Boolean verif_ExpandStrSymbol(char* pDest, size_t DestSize, tStrComp const* pSrc) {
+    size_t i;
+    for (i = 0; i + 1 < DestSize && i < 8 && pSrc->str.p_str[i]; i++) pDest[i] = pSrc->str.p_str[i];
+    pDest[i] = 0;
+    return True;
+}
+void h_IdentifySection(void) {
+    static TSaveSection st[5]; static TCToken sec[5]; static char secname[5][3]; static tStrComp comp; static char nm[9];
+    int d, i, kind, n, j; LongInt erg; Boolean ok; unsigned long ec; long long exp;
+    msg_txt[0] = 'm'; msg_txt[1] = 0;
+    for (i = 0; i < 5; i++) { secname[i][0] = 'S'; secname[i][1] = (char)('0' + i); secname[i][2] = 0; sec[i].Name = secname[i]; sec[i].Next = i < 4 ? &sec[i + 1] : NULL; }
+    FirstSection = &sec[0];
+    VND(d, int); VASSUME(d >= 0 && d <= 5);          /* nesting depth: sections S0 (outermost) .. S(d-1) (current) */
+    MomSectionHandle = d - 1;
+    for (i = 0; i < 5; i++) { st[i].Handle = d - 2 - i; st[i].Next = (i + 1 < d) ? &st[i + 1] : NULL; st[i].LocSyms = NULL; }
+    SectionStack = d > 0 ? &st[0] : NULL;            /* handles d-2, d-3, ..., 0, -1 */
+    CaseSensitive = True;
+    VND(kind, int); VASSUME(kind >= 0 && kind <= 3); VND(n, int); VASSUME(n >= 0 && n <= 9); VND(j, int); VASSUME(j >= 0 && j <= 4);
+    if (kind == 0) nm[0] = 0;                                                        /* name[] */
+    else if (kind == 3) { nm[0] = 'S'; nm[1] = (char)('0' + j); nm[2] = 0; }         /* name[Sj] */
+    else { nm[0] = 'P'; nm[1] = 'A'; nm[2] = 'R'; nm[3] = 'E'; nm[4] = 'N'; nm[5] = 'T'; nm[6] = (kind == 1) ? 0 : (char)('0' + n); nm[7] = 0; if (kind == 1) n = 1; }
+    comp.str.p_str = nm; comp.str.capacity = 9;
+    VND(g_err_cnt, ulong); VASSUME(g_err_cnt < 1000000); ec = g_err_cnt;
+    erg = 12345;
+    ok = IdentifySection(&comp, &erg);
+    if (kind == 0) exp = -1;
+    else if (kind == 3) exp = (j <= d - 1) ? j : -2;           /* the current section or one of its ancestors */
+    else exp = (n == 0) ? d - 1 : (n <= d) ? ((n < d) ? d - 1 - n : -1) : -2;
+    if (exp == -2) {
+        VPOST(!ok && g_err_cnt == ec + 1 && g_err_last == ErrNum_InvSection, "C13: a qualifier naming no enclosing section (or an ancestor beyond global) is an error");
+        VREACH("nosection");
+    } else {
+        VPOST(ok && erg == exp && g_err_cnt == ec, "C13: name[] is global, PARENTn the n-th enclosing section (PARENT0 the current one), a section name that enclosing section");
+        VREACH("end");
     }
 }
 
